@@ -68,7 +68,7 @@ def scope(model, family: str, schema_id: str, size: int, **over) -> dict:
     elif family == "astral":
         s = {
             "types": ["doc", "paragraph", "code_block", "text"],
-            "texts": ["a", "\U0001F600", "\U0001F601", "\n", "a\U0001F600", "\U0001F600a", "\U0001F600\U0001F601"],
+            "texts": ["a", "\U0001F600", "\U0001F601", "\n", "a\U0001F600", "\U0001F600a", "\U0001F600\U0001F601", "\U0001F600\n"],
         }
     elif family == "iso":
         s = {
@@ -135,6 +135,25 @@ def scope(model, family: str, schema_id: str, size: int, **over) -> dict:
                 "para": [{}, {"data": {"z": [1, 2]}, "n": 5}],
                 "widget": [{"id": 7}, {"id": "w", "cfg": {"deep": [1, {"k": "v"}]}}],
             },
+        }
+    elif family == "fmarks":
+        from ..ref import marks as rmk
+
+        A0 = ("A", {"id": 0})
+        A1 = ("A", {"id": 1})
+        B = ("B", None)
+        C = ("C", None)
+        cands = [[], [A0], [B], [C], [A0, B], [B, C], [A0, A1], [A0, C]]
+        msets = []
+        for names in cands:
+            ms = rmk.canon_set(model, [mk(model, n, a) for n, a in names])
+            if rmk.is_canonical(model, ms) and ms not in msets:
+                msets.append(ms)
+        s = {
+            "types": ["doc", "paragraph", "plain", "p_A", "p_grp", "text", "atom"],
+            "texts": ["a", "bc"],
+            "marksets": msets,
+            "max_children": 3,
         }
     elif family == "fgen":
         s = {
